@@ -180,10 +180,21 @@ class Soap11(XmlDocument):
         # lines make sure custom datetime formatting via
         # DateTime(dt_format="...") (or similar) is bypassed.
         self._to_unicode_handlers[Time] = lambda cls, value: value.isoformat()
-        self._to_unicode_handlers[DateTime] = lambda cls, value: value.isoformat()
+        self._to_unicode_handlers[DateTime] = self._datetime_to_unicode_iso
 
         self._from_unicode_handlers[Date] = self.date_from_unicode_iso
         self._from_unicode_handlers[DateTime] = self.datetime_from_unicode_iso
+
+    def _datetime_to_unicode_iso(self, cls, value):
+        cls_attrs = self.get_cls_attrs(cls)
+
+        if cls_attrs.as_timezone is not None and value.tzinfo is not None:
+            value = value.astimezone(cls_attrs.as_timezone)
+
+        if not cls_attrs.timezone:
+            value = value.replace(tzinfo=None)
+
+        return value.isoformat()
 
     def create_in_document(self, ctx, charset=None):
         if isinstance(ctx.transport, HttpTransportContext):
